@@ -6,6 +6,7 @@ import Proofs.DepGraphQueries
 import Proofs.DepGraphGraft
 import Proofs.GraftOrder
 import Proofs.DepGraphClosure
+import Proofs.DepGraphEqv
 import Proofs.DepGraphTopoComplete
 /-!
 # C16 — the dependency graph mirrors a plain node/edge set under any edit history
@@ -23,7 +24,7 @@ graphs, every node once after all its dependencies, `cyclic` otherwise).
 `graft` refines its set-level counterpart (`graft_refines_spec`) and preserves the ordering constraints between
 the plain nodes (`graft_preserves_order`); transitive closure and reduction are proved on acyclic graphs (`closure_spec`, `reduction_spec`: same reachability,
 most / fewest edges).  Not proved: the `flatten` loop over the nested store (each of its rounds is a `graft`), recursive
-`dependencies` and `==` (`<=` is `le_reads`) — in the executable model and tied to the code by the correspondence
+`dependencies` (`<=` is `le_reads`, `==` is `eq_reads`) — in the executable model and tied to the code by the correspondence
 (`multi_history_refines` is therefore the `…_partial` form of the property's first sentence: histories whose grafts are
 taken one at a time through `graft_refines_spec`).  `c16_pinned_refuted` keeps the pinned `graft` (A19) refuted.
 -/
@@ -333,6 +334,19 @@ theorem le_reads {g h : G} {s t : Spec} (hg : Refines g s) (hh : Refines h t) :
     exact ⟨fun z hz => (hh.2.1 z).1 (h1 z ((hg.2.1 z).2 hz)), fun u w e => (hh.2.2 u w).1 (h2 u w ((hg.2.2 u w).2 e))⟩
   · rintro ⟨h1, h2⟩
     exact ⟨fun z hz => (hh.2.1 z).2 (h1 z ((hg.2.1 z).1 hz)), fun u w e => (hh.2.2 u w).2 (h2 u w ((hg.2.2 u w).1 e))⟩
+
+/-- `g == h` is true exactly when the two graphs denote the same mathematical graph -/
+theorem eq_reads {g h : G} {s t : Spec} (hg : Refines g s) (hh : Refines h t) :
+    ∃ b, g.eqv h = .ok b ∧ (b = true ↔ (∀ z, s.N z ↔ t.N z) ∧ ∀ u w, s.E u w ↔ t.E u w) := by
+  obtain ⟨b, hb, hiff⟩ := eqv_spec hg.1 hh.1
+  refine ⟨b, hb, hiff.trans ?_⟩
+  constructor
+  · rintro ⟨h1, h2⟩
+    exact ⟨fun z => ((hg.2.1 z).symm.trans (h1 z)).trans (hh.2.1 z),
+      fun u w => ((hg.2.2 u w).symm.trans (h2 u w)).trans (hh.2.2 u w)⟩
+  · rintro ⟨h1, h2⟩
+    exact ⟨fun z => ((hg.2.1 z).trans (h1 z)).trans (hh.2.1 z).symm,
+      fun u w => ((hg.2.2 u w).trans (h2 u w)).trans (hh.2.2 u w).symm⟩
 
 /-- the mathematical graph after grafting the graph `t` in place of the node `x` of `s` -/
 def Spec.graft (s t : Spec) (x : Nat) : Spec :=
